@@ -192,6 +192,38 @@ def _unescape_ansi(esc):
     return out
 
 
+def remote_failure_section(rng, thorough, res, count):
+    """C04, push: ONE stage of the remote command of ONE file fails (the rename or the mtime stamp: a full disk, a read-only
+    directory — injected by tools/failshim in front of the remote PATH). The run may exit 0 only if every planned file is
+    byte-identical at the destination and carries the source's mtime; a file it could not deliver must be reported."""
+    shim = os.path.join(os.path.dirname(os.path.abspath(__file__)), "failshim")
+    names = ["a.txt", "small file.txt", "d/n.txt", "d/e/deep.bin"]
+    n = 0
+    for tool in ("mv", "touch"):
+        for vi in range(len(names) if thorough else 2):
+            victim = names[(vi + (0 if tool == "mv" else 1)) % len(names)]
+            for jobs in (["--jobs", "1"], ["--jobs", "4"]):
+                src = {nm: (b"new " + nm.encode() * rng.range(1, 40), 1_650_000_000 + 7 * k, 0) for k, nm in enumerate(names)}
+                dst = {nm: (b"old", 1_500_000_000, 0) for nm in names if rng.coin(2, 3) or nm == victim}
+                with Sandbox("C04rf") as sb:
+                    sb.env["PATH"] = shim + ":" + sb.env["PATH"]
+                    sb.env["FAILSHIM_TOOL"] = tool
+                    sb.env["FAILSHIM_MATCH"] = os.path.basename(victim)
+                    rc, out, err, s1, d1, sroot, droot = run_case(sb, rng, "push", src, dst, jobs, count)
+                    n += 1
+                    count(f"remote-failure/{tool}")
+                    rep = {"direction": "push", "flags": jobs, "failing_remote_tool": tool, "for_file": victim, "rc": rc, "stderr": err[-400:], "stdout": out[-300:]}
+                    wrong = sorted(nm for nm in names if d1.get(nm, (None, None, None))[:2] != src[nm][:2])
+                    if rc == 0 and wrong:
+                        res["violations"].append(("exit-0-but-planned-file-not-delivered", f"the remote `{tool}` for {victim} failed; copia exited 0 although {wrong} do not hold the source's bytes and mtime", rep))
+                    others = [nm for nm in names if nm != victim and d1.get(nm, (None, None, None))[:2] != src[nm][:2]]
+                    if others:
+                        res["violations"].append(("other-planned-files-not-delivered", f"one remote failure (for {victim}) kept {others} from being delivered", rep))
+                    if rc != 0 and os.path.basename(victim) not in err + out:
+                        res["violations"].append(("failed-file-not-reported", f"the run failed (rc {rc}) without naming {victim}", rep))
+    return n
+
+
 def location_section(rng, thorough, rundir, model_run, res, count):
     """`FileLocation::parse` observed through the real CLI: `sync -r --dry-run SRC X` either lists X over (stand-in)
     ssh — the stub logs the host and the command, whose `cd $'…'` argument is the remote path — or treats X as a
@@ -441,6 +473,7 @@ def run(pid, tier, seed, rundir, model_run):
         ndis += qdis
         nl, ldis = location_section(rng, thorough, rundir, model_run, res, count)
         ndis += ldis
+        remote_failure_section(rng, thorough, res, count)
     if ndis:
         res["broken"].append(f"{pid}/corr: model and implementation disagree on {ndis} of {len(ops)} runs")
     res.update(evaluations=len(ops), distinct_nontrivial=len({q for q in ops if q.count("=") >= 2}), n_disagreements=ndis,
